@@ -152,6 +152,53 @@ pub struct Rendered {
     pub pos: Vec<InsPos>,
 }
 
+impl Rendered {
+    /// the same program at another scale: `pad` filler lines (blank or comment) in front of it and every line
+    /// indented by `indent` blanks; line numbers and offsets of the instruction positions move accordingly
+    pub fn scaled(mut self, pad: usize, indent: usize) -> Rendered {
+        if indent > 0 {
+            let ind = " ".repeat(indent);
+            let mut t = String::with_capacity(self.text.len() + indent * 64);
+            for l in self.text.split_inclusive('\n') {
+                t.push_str(&ind);
+                t.push_str(l);
+            }
+            self.text = t;
+            for p in self.pos.iter_mut() {
+                p.offset += indent * p.line;
+            }
+        }
+        if pad > 0 {
+            let mut front = String::with_capacity(pad * 4);
+            for k in 0..pad {
+                if k % 7 == 3 {
+                    front.push_str("; filler");
+                }
+                front.push('\n');
+            }
+            for p in self.pos.iter_mut() {
+                p.line += pad;
+                p.offset += front.len();
+            }
+            front.push_str(&self.text);
+            self.text = front;
+        }
+        self
+    }
+}
+
+/// scale classes for position-sensitive monitors: mostly none, sometimes line numbers beyond 255, columns beyond 255,
+/// rarely line numbers beyond 65535
+pub fn rand_scale(rng: &mut crate::util::Rng) -> (usize, usize) {
+    match rng.below(20) {
+        0 | 1 | 2 => (260 + rng.below(100), 0),
+        3 | 4 => (0, 250 + rng.below(60)),
+        5 => (65540 + rng.below(100), 0),
+        6 => (300, 300),
+        _ => (0, 0),
+    }
+}
+
 pub struct Layout {
     pub trailing_newline: bool,
     /// insert blank / comment lines between items with this probability (percent)
